@@ -85,6 +85,9 @@ type SliceV struct {
 	// an object whose header was stored earlier on the path: its len/cap may
 	// be out of date (the elements below the old length are not).
 	Stale string
+	// LenFresh: the length of a stale header was re-established by an explicit
+	// high bound (s[:n]); only its capacity is still out of date.
+	LenFresh bool
 }
 
 type StructV struct {
